@@ -390,7 +390,7 @@ def main(argv=None):
             out_lines.append('KNOWN-FINDING: property=%s %s [%s; %s]' % (
                 check, e.get('description', ''), e['signature'],
                 ('seen %d times this run' % ks['count']) if ks else 'not reached this run'))
-    rep_dir = os.path.join(VERIF, 'replays', check)
+    rep_dir = os.path.join(os.environ.get('VERIF_REPLAY_DIR') or os.path.join(VERIF, 'replays'), check)
     n_reported = 0
     for sig in new_viol:
         v = viol[sig]
@@ -411,6 +411,15 @@ def main(argv=None):
         # confirm in a fresh interpreter
         r = run_replay(check, v['case'], overlay, scratch, conf, extra=extra_spec)
         sigs = [x['signature'] for x in r.get('violations', [])]
+        if sig not in sigs and v.get('original_case') is not None and v['original_case'] != v['case']:
+            # the minimised history does not reproduce in a fresh interpreter (e.g. the failure reads stale memory):
+            # fall back to the un-minimised history of the run that showed it
+            r = run_replay(check, v['original_case'], overlay, scratch, conf, extra=extra_spec)
+            sigs = [x['signature'] for x in r.get('violations', [])]
+            if sig in sigs:
+                rec['case'] = v['original_case']
+                rec['minimised_ops'] = v['original_ops']
+                rec['note'] = 'minimised history did not reproduce in a fresh interpreter; replay file holds the original history'
         if sig in sigs:
             rec['replay_confirmed'] = True
             rec['replay_digest'] = r['digest']
